@@ -202,7 +202,9 @@ class BaseOverlay:
             remaining = [
                 pair
                 for pair in (curr.handler_pairs if curr else [])
-                if not any(pair is p for p in mine)
+                if not any(
+                    pair[0] is sel and pair[1] is acc for sel, acc in mine
+                )
             ]
             HandlerCollection.current.set(
                 HandlerCollection(remaining) if remaining else None
